@@ -186,7 +186,7 @@ func C04(c *ev.Ctx) {
 
 	// ---- packages for the real translator ----
 	rr := rng(c, 4)
-	npk := c.Pick(120, 1500)
+	npk := c.Pick(120, 6000)
 	m, err := newGenModule(c, "mod-c04")
 	if err != nil {
 		c.Inconclusive("module: %v", err)
@@ -392,7 +392,7 @@ func C04(c *ev.Ctx) {
 // c04Rich: full-featured generated packages (every construct of the C01 generator), declarations in random order and
 // split over 1-3 files with scrambled names. Mentions inside a dependency cycle (mutual recursion) are exempt.
 func c04Rich(c *ev.Ctx, rr *rand.Rand) int {
-	npk := c.Pick(30, 400)
+	npk := c.Pick(30, 1500)
 	m, err := newGenModule(c, "mod-c04r")
 	if err != nil {
 		c.Inconclusive("module: %v", err)
